@@ -25,6 +25,7 @@ type SubsPlan struct {
 	Subs     int
 	Steps    []SubsStep
 	Peers    int
+	Joiners  int // subscriptions made concurrently with each chain change
 }
 
 // SubsStep is one change of the honest chain.
@@ -44,6 +45,7 @@ func SubsPlanFromSeed(seed int64, k int) SubsPlan {
 	}
 	p.Subs = 2 + r.Intn(5)
 	p.Peers = 1 + r.Intn(3)
+	p.Joiners = 6
 	n := 3 + r.Intn(6)
 	for i := 0; i < n; i++ {
 		if r.Intn(2) == 0 {
@@ -124,24 +126,34 @@ func RunSubs(p SubsPlan, res *Result) {
 	}()
 	rng := rand.New(rand.NewSource(p.Seed ^ 0x5b5))
 	src := &neutrino.RescanChainSource{ChainService: w.Svc}
+	var subsMu sync.Mutex
 	var subs []*subModel
-	addSub := func() {
+	// addSub subscribes from a drawn height (fixed < 0) or from the given one.
+	// Joiners (fixed >= 0) run on their own goroutines WHILE the client is
+	// adopting a chain change; they use a height far below every
+	// reorganisation of the plan, so what they hold is well defined.
+	addSub := func(fixed int64) {
 		bs, err := w.Svc.BestBlock()
 		if err != nil {
 			return
 		}
 		var from uint32
-		switch rng.Intn(4) {
-		case 0:
-			from = 0
-		case 1:
-			from = uint32(bs.Height)
+		switch {
+		case fixed >= 0:
+			from = uint32(fixed)
 		default:
-			if bs.Height > 1 {
-				from = uint32(1 + rng.Intn(int(bs.Height)))
+			switch rng.Intn(4) {
+			case 0:
+				from = 0
+			case 1:
+				from = uint32(bs.Height)
+			default:
+				if bs.Height > 1 {
+					from = uint32(1 + rng.Intn(int(bs.Height)))
+				}
 			}
 		}
-		m := &subModel{id: len(subs), from: from, chain: map[uint32]wire.BlockHeader{}, done: make(chan struct{})}
+		m := &subModel{from: from, chain: map[uint32]wire.BlockHeader{}, done: make(chan struct{})}
 		// What the subscriber "holds" when it subscribes: the committed chain
 		// up to `from` (height 0 = no backlog: it holds whatever is committed
 		// now, as a caller passing 0 does not ask for history).
@@ -163,7 +175,13 @@ func RunSubs(p SubsPlan, res *Result) {
 			return
 		}
 		m.sub = sub
+		subsMu.Lock()
+		m.id = len(subs)
 		subs = append(subs, m)
+		subsMu.Unlock()
+		if fixed >= 0 {
+			res.Count("subscribers_joined_during_a_chain_change", 1)
+		}
 		go func() {
 			defer close(m.done)
 			for n := range sub.Notifications {
@@ -178,7 +196,13 @@ func RunSubs(p SubsPlan, res *Result) {
 	}
 	res.Nontrivial = true
 	witness := func() any { return map[string]any{"plan": p, "event_log_tail": w.Log.Tail(40)} }
+	snapshot := func() []*subModel {
+		subsMu.Lock()
+		defer subsMu.Unlock()
+		return append([]*subModel(nil), subs...)
+	}
 	check := func(when string) {
+		subs := snapshot()
 		// Quiescent: the client reports the honest tip; give the subscription
 		// queues a moment to drain (bounded by event counts becoming stable).
 		last := -1
@@ -227,12 +251,12 @@ func RunSubs(p SubsPlan, res *Result) {
 		}
 	}
 	for i := 0; i < p.Subs/2; i++ {
-		addSub()
+		addSub(-1)
 	}
 	cur := tip
 	for si, st := range p.Steps {
-		if si%2 == 1 && len(subs) < p.Subs {
-			addSub()
+		if si%2 == 1 && len(snapshot()) < p.Subs {
+			addSub(-1)
 		}
 		var nt *chaingen.Node
 		switch st.Kind {
@@ -252,6 +276,23 @@ func RunSubs(p SubsPlan, res *Result) {
 		for _, pr := range w.Peers {
 			pr.View.SetTip(nt)
 		}
+		// Joiners: subscribe from height 1 (a backlog of the whole chain)
+		// every few milliseconds while the client adopts this change.
+		var jw sync.WaitGroup
+		jstop := make(chan struct{})
+		jw.Add(1)
+		go func() {
+			defer jw.Done()
+			for j := 0; j < p.Joiners; j++ {
+				select {
+				case <-jstop:
+					return
+				default:
+				}
+				addSub(1)
+				time.Sleep(time.Duration(1+j%4) * time.Millisecond)
+			}
+		}()
 		for _, pr := range w.Peers {
 			if pr.Conn() != nil {
 				if si%2 == 0 {
@@ -261,7 +302,10 @@ func RunSubs(p SubsPlan, res *Result) {
 				}
 			}
 		}
-		if !settle(nt) {
+		ok := settle(nt)
+		close(jstop)
+		jw.Wait()
+		if !ok {
 			res.Inconcl("client did not follow the honest chain within 40 s (C04's subject)")
 			return
 		}
@@ -269,10 +313,11 @@ func RunSubs(p SubsPlan, res *Result) {
 		res.Count("chain_steps", 1)
 		check(st.Kind)
 	}
-	for _, m := range subs {
+	all := snapshot()
+	for _, m := range all {
 		m.sub.Cancel()
 	}
-	for _, m := range subs {
+	for _, m := range all {
 		select {
 		case <-m.done:
 		case <-time.After(20 * time.Second):
@@ -282,6 +327,6 @@ func RunSubs(p SubsPlan, res *Result) {
 		res.Count("subscription_events", int64(m.events))
 		m.mu.Unlock()
 	}
-	res.Count("subscribers", int64(len(subs)))
-	res.Sample = map[string]any{"plan": p, "subscribers": len(subs)}
+	res.Count("subscribers", int64(len(all)))
+	res.Sample = map[string]any{"plan": p, "subscribers": len(all)}
 }
